@@ -121,7 +121,7 @@ class Engine:
             if self.opts.get('via_bundle'):
                 self.proc = self._restored_process(process_communicator)
             else:
-                self.proc = self.cls(inputs=self.case['program'].get('inputs'), pid=self.opts.get('pid'), loop=self.loop,
+                self.proc = self.cls(inputs=self.case['program'].get('inputs'), pid=self._pid(), loop=self.loop,
                                      communicator=process_communicator)
         except Exception as exc:  # noqa: BLE001 - construction faults are judged by C03
             self.construct_error = exc
@@ -159,7 +159,7 @@ class Engine:
         return bundle.unbundle(context)
 
     def _checkpoint_of_original(self, scratch, spec, persist):
-        original = self.cls(inputs=self.case['program'].get('inputs'), pid=self.opts.get('pid'), loop=scratch)
+        original = self.cls(inputs=self.case['program'].get('inputs'), pid=self._pid(), loop=scratch)
         original._sim_label = 'p'
         if spec.get('after') == 'rest':
             task = scratch.create_task(original.step_until_terminated())
@@ -171,11 +171,20 @@ class Engine:
                 # nothing left to control: checkpoint a fresh instance right after construction instead
                 self.world.events.clear()
                 self.world.rec('original_terminated', original.state.value)
-                original = self.cls(inputs=self.case['program'].get('inputs'), pid=self.opts.get('pid'), loop=scratch)
+                original = self.cls(inputs=self.case['program'].get('inputs'), pid=self._pid(), loop=scratch)
                 original._sim_label = 'p'
         bundle = persist.save(original, spec.get('medium', 'deepcopy'))
         self.world.rec('restored_from', original.state.value)
         return bundle
+
+    def _pid(self):
+        """The process id of the case: a string, an integer, a UUID ({'__uuid__': n} in the JSON case) or None (plumpy's own)."""
+        pid = self.opts.get('pid')
+        if isinstance(pid, dict) and '__uuid__' in pid:
+            import uuid
+
+            return uuid.UUID(int=pid['__uuid__'])
+        return pid
 
     def _divert(self, proc, site, count):
         """A lifecycle hook that refuses the state being entered and names another one instead (StateEntryFailed, the
